@@ -208,6 +208,146 @@ theorem c17_listed_every_track (g g' : Gen) (newSeqNr first last : Nat) (ass : L
           intro p hp
           rw [getItem_isSome]; exact hall p hp
 
+/-! ## The whole life cycle: uploads, start, uploads
+
+`GSorted` adds sorted counters and "no buffer holds a number above the newest counted one"; `GFresh` adds "every live
+counter is inside the window".  Before start every state is fresh; `start` (not shifted) keeps `GSorted` for any new
+window and `GFresh` when the window does not shrink; a shrink can leave counters outside the smaller window (they are
+swept by the next upload above the newest number, `ctr_add_sorted`). -/
+
+theorem c17_fresh_init (w : Nat) (h0 : 0 < w) (hw : w < U32) : GFresh (Gen.new w) := by
+  refine ⟨⟨c17_inv_init w h0 hw, ?_, ?_⟩, ?_⟩
+  · intro j1 j2 _ _ _ h2; simp [Gen.new, Ctrs.new] at h2
+  · intro p hp; simp [Gen.new] at hp
+  · intro x hx; simp [Gen.new, Ctrs.new, Ctrs.live] at hx
+
+theorem addState_fields (g g' : Gen) (name : String) (it : Item) (h : g.addState name it = some g') :
+    g'.w = g.w ∧ g'.started = g.started := by
+  unfold Gen.addState Gen.add at h
+  by_cases hs : (g.shifted && !it.shifted) = true
+  · rw [if_pos hs] at h; simp at h; subst h; exact ⟨rfl, rfl⟩
+  · rw [if_neg hs] at h
+    simp only [] at h
+    cases hadd : ((lookupBuf g.bufs name).getD (Buf.new g.w)).add it with
+    | panic => rw [hadd] at h; simp at h
+    | notIncreasing => rw [hadd] at h; simp at h; subst h; exact ⟨rfl, rfl⟩
+    | ok b1 =>
+      rw [hadd] at h
+      simp only [] at h
+      cases hca : g.ctrs.add it.seqNr with
+      | none => rw [hca] at h; simp at h
+      | some c1 =>
+        rw [hca] at h
+        simp only [] at h
+        by_cases hst : g.started = true
+        · rw [if_pos hst] at h
+          cases hnf : c1.newFullCounter (if ((lookupBuf g.bufs name).isNone && g.started) = true then g.bufs.length + 1 else g.tracks) g.latest with
+          | none => rw [hnf] at h; simp at h
+          | some nn => rw [hnf] at h; simp at h; subst h; exact ⟨rfl, rfl⟩
+        · rw [if_neg hst] at h; simp at h; subst h; exact ⟨rfl, rfl⟩
+
+/-- every finite sequence of uploads from a sorted state: no panic, `GSorted` at the end, window and started flag
+unchanged, freshness kept -/
+theorem c17_adds_sorted (evs : List (String × Item)) (g : Gen) (hg : GSorted g) (hn : ∀ e ∈ evs, e.2.seqNr < U32) :
+    ∃ g', evs.foldlM (fun g e => g.addState e.1 e.2) g = some g' ∧ GSorted g' ∧ g'.w = g.w ∧ g'.started = g.started ∧
+      (Fresh g.ctrs g.w → Fresh g'.ctrs g'.w) := by
+  induction evs generalizing g with
+  | nil => exact ⟨g, rfl, hg, rfl, rfl, fun h => h⟩
+  | cons e t ih =>
+    have h1 := gen_add_sorted g e.1 e.2 hg (hn e (by simp))
+    simp only [List.foldlM_cons]
+    have hst : ∃ g1, g.addState e.1 e.2 = some g1 ∧ GSorted g1 ∧ (Fresh g.ctrs g.w → Fresh g1.ctrs g1.w) := by
+      unfold Gen.addState
+      cases ha : g.add e.1 e.2 with
+      | panic => rw [ha] at h1; exact h1.elim
+      | err g1 => rw [ha] at h1; exact ⟨g1, rfl, h1⟩
+      | ok g1 n => rw [ha] at h1; exact ⟨g1, rfl, h1⟩
+    obtain ⟨g1, ha, hg1, hf1⟩ := hst
+    obtain ⟨hw1, hs1⟩ := addState_fields g g1 e.1 e.2 ha
+    obtain ⟨g', hfold, hg', hw', hs', hf'⟩ := ih g1 hg1 (fun e' he' => hn e' (by simp [he']))
+    refine ⟨g', ?_, hg', by rw [hw', hw1], by rw [hs', hs1], fun hf => hf' (hf1 hf)⟩
+    rw [ha]; exact hfold
+
+/-- **Life cycle.**  Any uploads before start, `start` to any window `0 < w < 2³²`, any uploads after: nothing panics,
+the generator is started, the invariant holds at the end, and all counters are inside the window if the window did not
+shrink. -/
+theorem c17_lifecycle (w0 w : Nat) (evs1 evs2 : List (String × Item)) (h0 : 0 < w0) (hw0 : w0 < U32)
+    (h1 : 0 < w) (hw1 : w < U32) (hn1 : ∀ e ∈ evs1, e.2.seqNr < U32) (hn2 : ∀ e ∈ evs2, e.2.seqNr < U32) :
+    ∃ g1 g2 g3, evs1.foldlM (fun g e => g.addState e.1 e.2) (Gen.new w0) = some g1 ∧
+      g1.start w false = some g2 ∧ evs2.foldlM (fun g e => g.addState e.1 e.2) g2 = some g3 ∧
+      GSorted g3 ∧ g3.started = true ∧ g3.w = w ∧ (w0 ≤ w → GFresh g3) := by
+  have hi := c17_fresh_init w0 h0 hw0
+  obtain ⟨g1, hf1, hg1, hw, _, hfr1⟩ := c17_adds_sorted evs1 (Gen.new w0) hi.base hn1
+  have hfresh1 : GFresh g1 := ⟨hg1, hfr1 hi.fresh⟩
+  obtain ⟨g2, hs2, hg2, hst2, hw2, hfr2⟩ := start_spec g1 w hfresh1 h1 hw1
+  obtain ⟨g3, hf3, hg3, hw3, hst3, hfr3⟩ := c17_adds_sorted evs2 g2 hg2 hn2
+  refine ⟨g1, g2, g3, hf1, hs2, hf3, hg3, by rw [hst3, hst2], by rw [hw3, hw2], ?_⟩
+  intro hle
+  refine ⟨hg3, hfr3 ?_⟩
+  rw [hw2]; exact hfr2 (by rw [hw]; exact hle)
+
+/-- **Every listed number is held by every track** — without the window side condition when all counters are fresh. -/
+theorem c17_listed_every_track_fresh (g g' : Gen) (newSeqNr first last : Nat) (ass : List String) (tls : List (List Item))
+    (hg : GFresh g) (hst : g.started = true) (h : g.mpd newSeqNr ass = .ok g' first last tls) :
+    ∀ k, first ≤ k → k ≤ last → ∀ p ∈ g.bufs, (p.2.getItem k).isSome = true := by
+  intro k hk1 hk2
+  have hrange : ∃ x ∈ g.ctrs.live, x.seqNr = k := by
+    unfold Gen.mpd at h
+    cases hr : g.ctrs.fullRange g.tracks with
+    | none => simp [hr] at h
+    | some fl =>
+      obtain ⟨f, l⟩ := fl
+      simp only [hr] at h
+      by_cases h1 : newSeqNr ≤ g.latest
+      · simp [h1] at h
+      · simp only [h1, ↓reduceIte] at h
+        by_cases h2 : newSeqNr > l
+        · simp [h2] at h
+        · simp only [h2, ↓reduceIte] at h
+          cases hm : ass.mapM (fun rep => (lookupBuf g.bufs rep).bind (fun b => timelineFor b f l)) with
+          | none => simp [hm] at h
+          | some tls' =>
+            simp only [hm] at h
+            injection h with _ hf hl _
+            subst hf hl
+            obtain ⟨x, hx, hxk, _⟩ := fullRange_spec g.ctrs g.tracks f l hr (by omega) k hk1 hk2
+            exact ⟨x, hx, hxk⟩
+  obtain ⟨x, hx, hxk⟩ := hrange
+  have := hg.fresh x hx
+  rw [hxk] at this
+  exact c17_listed_every_track g g' newSeqNr first last ass tls hg.base.inv hst h k hk1 hk2 this
+
+/-- **Counters and buffers stay within the window**: never more than `windowSize` live entries, in arrays of exactly
+that length. -/
+theorem c17_bounded (g : Gen) (hg : GInv g) :
+    g.ctrs.nr ≤ g.w ∧ g.ctrs.arr.length = g.w ∧ ∀ p ∈ g.bufs, p.2.nr ≤ g.w ∧ p.2.items.length = g.w :=
+  ⟨hg.cw.nr, hg.cw.len, fun p hp => ⟨(hg.bw p hp).nr, (hg.bw p hp).len⟩⟩
+
+/-- the range an MPD generation writes, if it writes -/
+def Gen.mpdRange (g : Gen) (n : Nat) (ass : List String) : Option (Nat × Nat) :=
+  match g.mpd n ass with
+  | .ok _ f l _ => some (f, l)
+  | _ => none
+
+def exEvs1 : List (String × Item) := [("v", ⟨1, 10, 10, false⟩), ("a", ⟨1, 10, 10, false⟩), ("v", ⟨2, 20, 10, false⟩)]
+def exEvs2 : List (String × Item) := [("a", ⟨2, 20, 10, false⟩)]
+def exRun : Option Gen := do
+  let g1 ← exEvs1.foldlM (fun g e => g.addState e.1 e.2) (Gen.new 8)
+  let g2 ← g1.start 8 false
+  exEvs2.foldlM (fun g e => g.addState e.1 e.2) g2
+
+/-- non-vacuity of `c17_listed_every_track_fresh`: a concrete run (two tracks, start, the late track catches up) ends in
+a started state that satisfies `GFresh` and writes an MPD listing 1..2 -/
+example : ∃ g, exRun = some g ∧ GFresh g ∧ g.started = true ∧ g.mpdRange 2 ["v", "a"] = some (1, 2) := by
+  obtain ⟨g1, g2, g3, h1, h2, h3, _, hst, _, hf⟩ := c17_lifecycle 8 8 exEvs1 exEvs2 (by decide) (by decide) (by decide) (by decide)
+    (by decide) (by decide)
+  have hrun : exRun = some g3 := by
+    unfold exRun; rw [h1]; simp only [Option.bind_eq_bind, Option.bind_some]; rw [h2]; simp only [Option.bind_some]; exact h3
+  refine ⟨g3, hrun, hf (Nat.le_refl _), hst, ?_⟩
+  have hc : (exRun.bind (fun g => g.mpdRange 2 ["v", "a"])) = some (1, 2) := by decide
+  rw [hrun] at hc
+  simpa using hc
+
 /-- non-vacuity: two tracks, three rounds, started after the second master segment; the third round
 produces an MPD listing 1..3 -/
 example :
